@@ -91,6 +91,19 @@ pub fn gen_history(rng: &mut Rng, recipe: &str, max_solves: usize) -> Vec<SOp> {
             ops.push(SOp::NVars);
             ops.push(SOp::Solve0);
         }
+        "bulk" => {
+            // an instance whose DIMACS text is larger than a pipe buffer / a 64 KiB chunk, trivially satisfiable
+            // (every clause contains the literal 1): the bytes the external program receives are compared in full
+            let n = rng.range(9000, 14000);
+            for i in 0..n {
+                let x = (i % 40 + 2) as isize;
+                let y = ((i * 7) % 41 + 2) as isize;
+                ops.push(SOp::Add(vec![1, if i % 2 == 0 { x } else { -x }, if i % 3 == 0 { y } else { -y }]));
+            }
+            ops.push(SOp::Solve(vec![1]));
+            ops.push(SOp::NVars);
+            ops.push(SOp::Solve0);
+        }
         "units" => {
             let k = rng.range(1, 7);
             ops.push(SOp::Add(vec![1]));
@@ -326,7 +339,8 @@ pub fn run_dimacs(rng: &mut Rng, count: usize, thorough: bool, extra: &[String],
         let _ = std::fs::remove_file(&dump);
         if k % 2 == 0 {
             // a history on the solver object itself
-            let recipe = RECIPES[(k / 2) % RECIPES.len()];
+            // the first history of every shard is the bulk one (instance text above 64 KiB)
+            let recipe = if k == 0 { "bulk" } else { RECIPES[(k / 2) % RECIPES.len()] };
             let ops = gen_history(rng, recipe, if thorough { 8 } else { 5 });
             out.case(&format!("dimacs/hist/{}", recipe));
             for o in ops.iter() { out.inp(&o.to_line()); }
